@@ -130,4 +130,20 @@ def tTree (s : Nat) (cs : List TCons) (fuel : Nat) : Option (CTree TCons) :=
     | 2 => some (withPairwiseMutex sorted tconsMutex)
     | _ => withPowerset tCond (sorted.take 4) fuel
 
+/-- Strategy 4: trivially true constraints label the root only; the others form a
+transitive-mutex tree with a deterministic root (exhibits finding F4). -/
+def tTreeRoot (cs : List TCons) : CTree TCons :=
+  if cs.isEmpty then CTree.new
+  else
+    let sorted := sortWithIndices tconsLe cs
+    let isTrue := fun (ci : TCons × Nat) => match ci.1.pred with | .true_ _ => true | _ => false
+    let trues := sorted.filter isTrue
+    let rest := sorted.filter fun ci => !isTrue ci
+    let t := { withTransitiveMutex rest tconsMutex with makeDet := true }
+    trues.foldl (fun t ci => t.addLabel 0 ci.2) t
+
+/-- All strategies of the table domain. -/
+def tTreeAll (s : Nat) (cs : List TCons) (fuel : Nat) : Option (CTree TCons) :=
+  if s ≤ 3 then tTree s cs fuel else some (tTreeRoot cs)
+
 end Pm
